@@ -185,6 +185,23 @@ CLAIMED["C11"] = dict(
     technique="Lean 4 omega proofs over extracted index kernel + ring identities + sample-exact correspondence and symmetry oracle",
     ref="DESIGN.md §5 C11")
 
+CLAIMED["C03"] = dict(
+    text="Lean 4 proof about the transcription of elsignatures/_add_excitation and of the element rules of Aggregate.build, for every "
+         "number of two-level molecules and every multiplicity: every generated state is a 0/1 signature of the right length whose "
+         "band is its number of excitations (induction over excitation count), states are ordered by band, no Hamiltonian element "
+         "connects different bands, inside a band an element is J_kl exactly between states that differ by moving one excitation k<->l "
+         "(one-exciton band: indexed by site), the matrix is symmetric for symmetric couplings, and a non-zero dipole element needs "
+         "exactly one molecule changing state between bands and is that molecule's dipole. Tied to the code by exact comparison "
+         "(internal units; 1e-9 after unit conversion) of signatures, Hamiltonian and dipole operator for 1-6(7) molecules x "
+         "multiplicity 1,2 built under random unit contexts, and by the oracle: independent Frenkel reference element by element, band "
+         "sizes and RWA indices, relabelling + unit-context invariance of spectrum, site and exciton dipole strengths, and the "
+         "point-dipole formula in Debye/Angstrom from SI constants (float, whole-number and integer positions, several eps_r). "
+         "Partial: completeness / absence of duplicates of the signature list is checked exhaustively per size against "
+         "itertools.combinations, not yet proved for all N; the numerical value of eps0_int is compared, not derived.",
+    note="Lean kernel + standard axioms; hand model validated on generated inputs; three-level molecules are outside the claim.",
+    technique="Lean 4 induction over the signature generator + element-rule case analysis + exact correspondence and Frenkel reference",
+    ref="DESIGN.md §5 C03")
+
 NOT_APPLICABLE = {}
 
 
